@@ -64,6 +64,9 @@ type FS struct {
 	DecideCtx func(ctx context.Context, call string, h *Handle) Expect
 	// DirIter, when set, provides the listing iterator of every OpenDir.
 	DirIter func() p9p.ReadNext
+	// QidGate, when set, is called on entry and exit of every Dirent.Qid call the session makes
+	// (a call on the entry like any other, but without a context).
+	QidGate func(enter bool, h *Handle)
 }
 
 func New() *FS { return &FS{Reg: map[int]*Handle{}} }
@@ -187,6 +190,14 @@ func (fs *FS) Attach(ctx context.Context, uname, aname string, af p9p.AuthFile) 
 // ----------------------------------------------------------------- Dirent
 
 func (h *Handle) Qid() p9p.Qid {
+	if g := h.fs.QidGate; g != nil && !h.Placeholder {
+		g(true, h)
+		defer g(false, h)
+	}
+	return h.qid()
+}
+
+func (h *Handle) qid() p9p.Qid {
 	q := p9p.Qid{Path: uint64(h.ID), Version: uint32(h.ID) * 3}
 	if h.IsDir {
 		q.Type = p9p.QTDIR
@@ -195,7 +206,7 @@ func (h *Handle) Qid() p9p.Qid {
 }
 
 func (h *Handle) StatDir() p9p.Dir {
-	return p9p.Dir{Qid: h.Qid(), Name: fmt.Sprintf("e%d", h.ID), Length: uint64(h.ID)}
+	return p9p.Dir{Qid: h.qid(), Name: fmt.Sprintf("e%d", h.ID), Length: uint64(h.ID)}
 }
 
 func (h *Handle) OpenDir(ctx context.Context) (p9p.ReadNext, error) {
@@ -243,7 +254,7 @@ func (h *Handle) Walk(ctx context.Context, names ...string) ([]p9p.Qid, p9p.Dire
 	}
 	nh := fs.NewHandle(e.NH, e.Dir)
 	if len(qids) > 0 {
-		qids[len(qids)-1] = nh.Qid()
+		qids[len(qids)-1] = nh.qid()
 	}
 	return qids, nh, nil
 }
